@@ -13,12 +13,12 @@ def battery (names : List String) (c : Chain) : List String :=
   (List.range c.length).flatMap fun i =>
     let ci := c.drop i
     (names.flatMap fun nm =>
-      [ s!"g{i}:{nm}={optStr symStr (getSymbolInfo asciiUpper ci nm)}",
-        s!"w{i}:{nm}={optStr hitStr (searchWParent asciiUpper ci nm)}",
-        s!"s{i}:{nm}={optStr hitStr (searchOwn asciiUpper ci nm)}",
-        s!"a{i}:{nm}={listStr hitStr (searchAll asciiUpper ci nm)}" ]) ++
+      [ s!"g{i}:{nm}={optStr symStr (getSymbolInfo latinUpper ci nm)}",
+        s!"w{i}:{nm}={optStr hitStr (searchWParent latinUpper ci nm)}",
+        s!"s{i}:{nm}={optStr hitStr (searchOwn latinUpper ci nm)}",
+        s!"a{i}:{nm}={listStr hitStr (searchAll latinUpper ci nm)}" ]) ++
     [ s!"t{i}={listStr symStr (iterSymbols ci)}",
-      s!"c{i}={listStr symStr (collectUnique asciiUpper ci)}" ]
+      s!"c{i}={listStr symStr (collectUnique latinUpper ci)}" ]
 
 def parseIns (op : String) : Option (Nat × String) :=
   match (op.drop 1).toString.splitOn ":" with
@@ -37,7 +37,7 @@ def run (args : List String) : String :=
         let (c, tag, out) := st
         if op == "Q" then (c, tag, out ++ battery names c)
         else match parseIns op with
-          | some (sc, id) => (applyOp asciiUpper c (.insert sc ⟨id, tag⟩), tag + 1, out)
+          | some (sc, id) => (applyOp latinUpper c (.insert sc ⟨id, tag⟩), tag + 1, out)
           | none => (c, tag, out ++ ["bad-op"])) (c0, 0, [])
       " ".intercalate out
   | _ => "bad-op"
